@@ -2,7 +2,7 @@
    Only statements, each closed by [exact].  Model: Orm/Schema.v over Gen/ParseField.v (regenerated from
    wrapped_table.py / ormatic.py / wrapped_field.py on every run); Spec: Orm/SchemaSpec.v.
    [wfM] = the documented grammar; [topo M order] = the emission order lists every class once, parents first;
-   F = [F_attrnames], [F_inherited], [F_classnames] (complement of the defect classes, see _refuted). *)
+   F = [F_attrnames], [F_inherited], [F_inherited_rel], [F_classnames] (complement of the defect classes, see _refuted). *)
 From Coq Require Import List String Ascii Bool ZArith Permutation.
 From Krrood Require Import Base.Sx Orm.SchemaStr Orm.SchemaSpec Gen.ParseField Orm.Schema Orm.SchemaProofs Orm.SchemaWf.
 Import ListNotations.
@@ -84,6 +84,12 @@ Proof. exact tables_order_independent. Qed.
 Theorem C06_refuted_casefold : exists M order, wfM M = true /\ topo M order /\ wf_table_names_unique (gen M order) = false.
 Proof. exact refuted_casefold. Qed.
 
+(* the open defect class C06-p: the generated foreign-key column r_id of a reference r clashes with a reference or collection
+   field named r_id of an ancestor; the generator does not refuse it and the layer is not well-formed *)
+Theorem C06_refuted_inhrelalias : exists M order, wfM M = true /\ topo M order /\ refused (gen M order) = false
+  /\ wf_no_inherited_rel_clash (gen M order) = false /\ F_inherited_rel M = false.
+Proof. exact refuted_inhrelalias. Qed.
+
 (* regression examples for the repaired findings.  C06-a (c757abc): a collection of the own class is well-formed *)
 Example C06_fixed_selfcoll : wfM M_selfcoll = true /\ inF M_selfcoll = true /\ wf_assoc_columns (gen M_selfcoll M_selfcoll) = true
   /\ schema_wf (gen M_selfcoll M_selfcoll) = true /\ model_obs (gen M_selfcoll M_selfcoll) = spec_obs M_selfcoll.
@@ -139,5 +145,6 @@ Print Assumptions C06_wf_fk_targets.
 Print Assumptions C06_generation_is_a_function.
 Print Assumptions C06_tables_order_independent.
 Print Assumptions C06_refuted_casefold.
+Print Assumptions C06_refuted_inhrelalias.
 Print Assumptions C06_impl_order_is_topo.
 Print Assumptions C06_emission_parents_first.
